@@ -128,3 +128,38 @@ fn c03_node_vs_edge_never_conflict() {
     kani::cover!(true);
     std::mem::forget(s);
 }
+
+//@ property: C03
+//@ tier: quick
+//@ cap_s: 600
+//@ stubs: parking_lot slow paths, alloc::fmt::format
+//@ encodes: TransactionManager::{begin_with_isolation,record_write,commit,state}
+//@ symbolic: both entities (nodes, all 64 id bits each), isolation levels
+//@ bound: history  begin T0; begin T2; commit T2 (epoch advances); begin T1 (younger, later epoch); write(T1,e1); commit T1; write(T0,e0); commit T0
+//@ oracle: a younger transaction that began at a later epoch and committed while the older one was still active still makes the older one lose (overlap = "committed after I began", not interval containment)
+hist!(c03_younger_writer_commits_first, s, { s.b(0); s.b(2); s.c(2); s.b(1); s.w(1,1); s.c(1); s.w(0,0); s.c(0); }, |m, same| m == 0b110 && same);
+
+//@ property: C03
+//@ tier: quick
+//@ cap_s: 400
+//@ stubs: parking_lot slow paths, alloc::fmt::format
+//@ encodes: TransactionManager::{begin_with_isolation,record_write,commit,gc,state}
+//@ symbolic: both entities (nodes, all 64 id bits each)
+//@ bound: history  begin T0 (ReadCommitted); begin T1 (Serializable); write(T1,e1); commit T1; gc; write(T0,e0); commit T0 -- every active transaction pins the winners it overlaps, whatever its isolation level
+//@ oracle: T0 refused iff same entity; gc does not change the verdict
+#[kani::proof]
+#[kani::unwind(5)]
+#[kani::stub(parking_lot::RawRwLock::lock_exclusive_slow, lk_slow)]
+#[kani::stub(parking_lot::RawRwLock::lock_shared_slow, lk_sh_slow)]
+#[kani::stub(parking_lot::RawRwLock::unlock_exclusive_slow, ulk_slow)]
+#[kani::stub(parking_lot::RawRwLock::unlock_shared_slow, ulk_sh_slow)]
+#[kani::stub(alloc::fmt::format, fmt_stub)]
+fn c03_overlap_gc_between_non_default_levels() {
+    let ent = [any_node(), any_node()];
+    let mut s = Sim::new(&ent, [0, 2, 1]);
+    s.b(0); s.b(1); s.w(1,1); s.c(1); s.g(); s.w(0,0); s.c(0);
+    let same = ent[0] == ent[1];
+    kani::cover!(s.mask == 0b10 && same);
+    kani::cover!(s.mask == 0b11 && !same);
+    std::mem::forget(s);
+}
